@@ -99,7 +99,7 @@ def _param_to_attrs(idx, cls_q: str) -> Dict[str, Dict[int, Set[str]]]:
         m = idx.find_method(cls_q, mname)
         if not m:
             continue
-        ps = [p for p in param_names(m.node)][1:]
+        ps = m.call_params()
         inf = _influence(m.node, {p: {p} for p in ps})
         # super().__init__(x) forwarding
         fwd: Dict[str, Set[str]] = {}
@@ -231,7 +231,10 @@ def _check_main(ctx, res) -> None:
             res.undecided("R12.1", f"{k}|arity", wm.where, "writer does not return a single tuple literal")
             continue
         elts = rets[0].value.elts
-        obj = param_names(wm.node)[1]
+        obj = (wm.call_params() or [None])[0]  # the change object (first parameter a caller fills; the writer may be a static method)
+        if obj is None:
+            res.undecided("R12.1", f"{k}|arity", wm.where, "writer takes no change object")
+            continue
         # resolve local names in the writer to attributes of the change
         winf = _influence(wm.node, {})
         loc: Dict[str, Set[str]] = {}
@@ -267,7 +270,7 @@ def _check_main(ctx, res) -> None:
                 f"{sorted(b for b in built if b[:1].isupper())}: after one close/reopen the reloaded change is saved with a different value "
                 "(a folder creation comes back as a file creation), so redo after the second reopen does something else")
         a = rm.node.args
-        ps = [p.arg for p in a.posonlyargs + a.args][1:]
+        ps = rm.call_params()  # (the reader may be a static method)
         nreq = len(ps) - len(a.defaults)
         ok = nreq <= len(elts) <= len(ps) or (a.vararg is not None and len(elts) >= nreq)
         res.add("R12.1", f"{k}|arity", ok, rm.where,
@@ -347,7 +350,7 @@ def _serializer(ctx, res) -> None:
     dec = idx.need_func("rope.base.serializer._js2py")
     top = idx.need_func("rope.base.serializer.python_to_json")
     versions: Set[int] = set()
-    for n in walk_local(top.node):
+    for n in walk_local(common.inlined(idx, top)):  # the version guard may live in a private helper
         if isinstance(n, ast.Compare) and isinstance(n.ops[0], (ast.NotIn, ast.In)) and isinstance(n.comparators[0], (ast.Tuple, ast.List, ast.Set)):
             versions = {e.value for e in n.comparators[0].elts if isinstance(e, ast.Constant)}
     if not versions:
